@@ -32,7 +32,7 @@ pub static DEF: PropDef = PropDef {
 		"memory is measured with a counting global allocator on the simulation thread; harness bookkeeping (event log, consumer byte log) is excluded by an explicit guard",
 		"memory bounds used: sanity bound peak < 4 MiB + 64*max_document (the YAML path legitimately holds ~20x the text of the document being parsed); deciding test: peak(N) - peak(N/4) > 64 KiB + 2*max_document AND both increments peak(N/2)-peak(N/4), peak(N)-peak(N/2) are at least half the input bytes added (growth with the stream, not a one-time jump between code paths)",
 	],
-	expected_probes: &["policy.doc_per_read", "policy.k_docs_per_read", "policy.fraction", "policy.bytes", "policy.random", "detect", "lag0", "lag1", "big_docs", "w.short", "memory_growth_checked"],
+	expected_probes: &["policy.doc_per_read", "policy.k_docs_per_read", "policy.fraction", "policy.bytes", "policy.random", "detect", "lag0", "lag1", "big_docs", "w.short", "memory_growth_checked", "history_before_stream"],
 	needs_bins: false,
 	watchdog_s: 120,
 };
@@ -168,7 +168,25 @@ fn gen(seed: u64, idx: u64, t: Tier) -> J {
 			("random", Sched { list, cycle: true })
 		}
 	};
-	let mut sc = Scenario::new(to, vec![Call::reader(stream.bytes, from, sched)]);
+	let mut calls = vec![];
+	if r.chance(1, 3) {
+		// The translator has a history: one or two earlier (small) inputs in any format,
+		// declared or detected, before the stream arrives.
+		for _ in 0..r.range(1, 2) {
+			let (pf, ps) = corpus_stream(&mut r, 2);
+			if !exec::t0(&ps.bytes, Some(pf), to).0.is_ok() {
+				continue;
+			}
+			let det = xt::verif::detect_slice(&ps.bytes).ok().flatten().map(Fmt::from_xt);
+			let pfrom = if det == Some(pf) && r.chance(2, 3) { None } else { Some(pf) };
+			let rd = r.chance(1, 2);
+			let mut c = Call::reader(ps.bytes, pfrom, if rd { gen::gen_sched(&mut r, 64) } else { Sched::whole() });
+			c.reader = rd;
+			calls.push(c);
+		}
+	}
+	calls.push(Call::reader(stream.bytes, from, sched));
+	let mut sc = Scenario::new(to, calls);
 	if r.chance(1, 4) {
 		sc.writer.sched = Sched::bytes(r.log_range(1, 4096) as u32);
 	}
@@ -188,8 +206,9 @@ fn eval(case: &J) -> Eval {
 	let docs = ranges(&sc);
 	let f = sc.param_s("fmt").and_then(Fmt::parse).unwrap_or(Fmt::Json);
 	let n = docs.len();
-	let bytes = &sc.calls[0].bytes;
-	let tag = format!("{}->{}", from_name(sc.calls[0].from), sc.to.name());
+	let si = sc.calls.len() - 1; // the stream is the last call of the history
+	let bytes = &sc.calls[si].bytes;
+	let tag = format!("{}->{}", from_name(sc.calls[si].from), sc.to.name());
 	// Output end offsets of each document (translations of each document alone).
 	let mut o_end: Vec<u64> = Vec::with_capacity(n);
 	let mut total = 0u64;
@@ -219,7 +238,10 @@ fn eval(case: &J) -> Eval {
 	let o = exec::run_with(&sc, Opts { drop_out: true, measure: true, ..Opts::default() });
 	global_invariants(&mut ev, &sc, &o, "stream");
 	add_io_counters(&mut ev, &o);
-	match o.verdict(0) {
+	if o.calls.len() <= si || o.calls[..si].iter().any(|c| !matches!(c.verdict, Some(Verdict::Ok))) {
+		return ev; // an earlier input of the history failed: not this property's business
+	}
+	match o.verdict(si) {
 		Verdict::Ok => {}
 		Verdict::Err(e) => {
 			ev.violate(format!("stream-failed/{tag}"), format!("a stream of {n} documents, each translatable alone, failed: {e}"));
@@ -227,8 +249,10 @@ fn eval(case: &J) -> Eval {
 		}
 		Verdict::Panic(_) => return ev,
 	}
-	if o.out_total != total {
-		ev.violate(format!("length/{tag}"), format!("consumer received {} bytes, the per-document translations add up to {total}", o.out_total));
+	let base = o.calls[si].out_before;
+	ev.count("history_before_stream", u64::from(si > 0));
+	if o.out_total - base != total {
+		ev.violate(format!("length/{tag}"), format!("consumer received {} bytes for the stream, the per-document translations add up to {total}", o.out_total - base));
 	}
 	// Lag oracle over the history.
 	let mut written = 0u64;
@@ -237,8 +261,8 @@ fn eval(case: &J) -> Eval {
 	let mut worst: Option<(usize, u64, u64)> = None;
 	for e in &o.log.ev {
 		match *e {
-			Ev::Write { total_after, .. } => written = total_after,
-			Ev::Read { got, off_after, .. } => {
+			Ev::Write { total_after, .. } => written = total_after.saturating_sub(base),
+			Ev::Read { call, got, off_after, .. } if call as usize == si => {
 				let before = off_after - got.max(0) as u64;
 				while j < n && docs[j].1 as u64 <= before {
 					j += 1;
@@ -285,13 +309,13 @@ fn eval(case: &J) -> Eval {
 		let measure = |upto: usize, ev: &mut Eval| -> Option<(usize, usize)> {
 			let cut = docs[upto - 1].1;
 			let mut s2 = sc.clone();
-			s2.calls[0].bytes.truncate(cut);
+			s2.calls[si].bytes.truncate(cut);
 			if f == Fmt::Json {
-				s2.calls[0].bytes.push(b'\n');
+				s2.calls[si].bytes.push(b'\n');
 			}
 			let o2 = exec::run_with(&s2, Opts { drop_out: true, lean: true, measure: true, ..Opts::default() });
 			ev.execs += 1;
-			o2.verdict(0).is_ok().then(|| (o2.mem.peak.max(0) as usize, cut))
+			(o2.calls.len() > si && o2.verdict(si).is_ok()).then(|| (o2.mem.peak.max(0) as usize, cut))
 		};
 		if let (Some((p4, b4)), Some((p2, b2))) = (measure(n / 4, &mut ev), measure(n / 2, &mut ev)) {
 			ev.count("memory_growth_checked", 1);
@@ -317,20 +341,26 @@ fn eval(case: &J) -> Eval {
 		},
 		1,
 	);
-	ev.count("detect", u64::from(sc.calls[0].from.is_none()));
-	ev.count("detect_first_doc_over_8k", u64::from(sc.calls[0].from.is_none() && docs.first().is_some_and(|d| d.1 - d.0 > 8192)));
+	ev.count("detect", u64::from(sc.calls[si].from.is_none()));
+	ev.count("detect_first_doc_over_8k", u64::from(sc.calls[si].from.is_none() && docs.first().is_some_and(|d| d.1 - d.0 > 8192)));
 	ev.count("big_docs", u64::from(max_doc >= 8192));
-	ev.nontrivial = n >= 10 && o.calls[0].data_reads as usize >= n / 2;
-	ev.key = key_of(&sc, sched_hash(&sc.calls[0].sched));
+	ev.nontrivial = n >= 10 && o.calls[si].data_reads as usize >= n / 2;
+	ev.key = key_of(&sc, sched_hash(&sc.calls[si].sched));
 	ev.trace = crate::rng::mix(o.trace_hash(), max_lag as u64);
 	ev
 }
 
 fn shrink(case: &J) -> Vec<J> {
 	let sc = parse(case);
+	let si = sc.calls.len() - 1;
 	let docs = ranges(&sc);
 	let n = docs.len();
 	let mut out = vec![];
+	if si > 0 {
+		let mut s = sc.clone();
+		s.calls.remove(0);
+		out.push(s.to_json());
+	}
 	// Keep a prefix / suffix of the documents (schedule is kept as is for byte policies,
 	// replaced by the document-per-read policy otherwise).
 	let mut keep: Vec<(usize, usize)> = vec![];
@@ -344,15 +374,15 @@ fn shrink(case: &J) -> Vec<J> {
 		let base = if a == 0 { 0 } else { docs[a].0 };
 		let end = docs[b - 1].1;
 		let mut s = sc.clone();
-		s.calls[0].bytes = sc.calls[0].bytes[base..end].to_vec();
+		s.calls[si].bytes = sc.calls[si].bytes[base..end].to_vec();
 		if sc.param_s("fmt") == Some("json") {
-			s.calls[0].bytes.push(b'\n');
+			s.calls[si].bytes.push(b'\n');
 		}
 		let nd: Vec<(usize, usize)> = docs[a..b].iter().map(|(x, y)| (x - base, y - base)).collect();
 		set_param(&mut s, "docs", json!(nd.iter().map(|(x, y)| json!([x, y])).collect::<Vec<_>>()));
-		if !s.calls[0].sched.cycle {
+		if !s.calls[si].sched.cycle {
 			let ends: Vec<usize> = nd.iter().map(|d| d.1).collect();
-			s.calls[0].sched = gen::sched_at_offsets(&ends, 0);
+			s.calls[si].sched = gen::sched_at_offsets(&ends, 0);
 		}
 		out.push(s.to_json());
 	}
@@ -361,10 +391,10 @@ fn shrink(case: &J) -> Vec<J> {
 		s.writer.sched = Sched::whole();
 		out.push(s.to_json());
 	}
-	if sc.calls[0].from.is_none() {
+	if sc.calls[si].from.is_none() {
 		if let Some(f) = sc.param_s("fmt").and_then(Fmt::parse) {
 			let mut s = sc.clone();
-			s.calls[0].from = Some(f);
+			s.calls[si].from = Some(f);
 			out.push(s.to_json());
 		}
 	}
